@@ -25,6 +25,7 @@ REQUIRED = {"suite_runs": 1, "contract_tour_length_evaluated": 20, "tour_evaluat
             "bound_attained_lower": 20, "bound_attained_upper": 20,
             "instances_all_perms": 20, "multiplier_instances": 30,
             "size_window_instances": 10,
+            "instances_from_tsplib_text": 50,
             "input_layout[F]": 30, "input_layout[T-view]": 30,
             "input_layout[strided]": 30}
 
@@ -263,6 +264,36 @@ def one_instance(ctx, m, tag, mult, in_dtype, all_perms, layout=None):
             ctx.violation("instance-aliases-the-callers-matrix",
                           "tour length changed after the caller's array was "
                           "overwritten", dict(case0, kind="tour", tour=t))
+    # the other way a matrix becomes an instance: a TSPLIB text (declared
+    # TSP or ATSP - an ATSP file may hold a symmetric matrix)
+    if int(rng.integers(5)) == 0 and n <= 40 and max(
+            max(r) for r in m) <= 10 ** 12:   # the text reader's number range
+        from checks import C18
+        typ = "ATSP" if (not sym or rng.integers(2)) else "TSP"
+        lines = C18.header(C18.name_of(rng), typ, n, "EXPLICIT",
+                           "FULL_MATRIX", rng) + ["EDGE_WEIGHT_SECTION"] \
+            + C18.wrap(rng, [m[i][j] for i in range(n) for j in range(n)]) \
+            + ["EOF"]
+        fcase = {"kind": "file", "lines": lines, "matrix": m}
+        ctx.case()
+        ctx.count("instances_from_tsplib_text")
+        ctx.count(f"tsplib_text_type[{typ}]")
+        back = C18.load(lines)
+        if bool(back.is_symmetric) != sym:
+            ctx.violation("symmetry-flag", f"loaded from a {typ} file: "
+                          f"is_symmetric={back.is_symmetric} but the matrix "
+                          f"is {'symmetric' if sym else 'not'}", fcase)
+        if C18.mat(back) != m:
+            ctx.violation("stored-matrix-differs", "instance loaded from a "
+                          "TSPLIB text differs from the listed matrix", fcase)
+        else:
+            t = tours[0]
+            x = space.create()
+            x[:] = t
+            if TourLength(back).evaluate(x) != sum(
+                    m[t[k - 1]][t[k]] for k in range(n)):
+                ctx.violation("tour-length-differs", "on an instance loaded "
+                              "from a TSPLIB text", fcase)
     if int(rng.integers(40)) == 0:
         ctx.sample({"n": n, "tag": tag, "dtype": str(inst.dtype),
                     "matrix_first_rows": m[:3], "lb": lb, "ub": ub,
@@ -293,6 +324,17 @@ def run_shard(ctx, args):
 
 
 def replay(ctx, case):
+    if case.get("kind") == "file":
+        m = case["matrix"]
+        one_instance(ctx, m, "replay", 1, np.int64, len(m) <= 6)
+        from checks import C18
+        back = C18.load(case["lines"])
+        sym = all(m[i][j] == m[j][i] for i in range(len(m))
+                  for j in range(len(m)))
+        if bool(back.is_symmetric) != sym or C18.mat(back) != m:
+            ctx.violation("symmetry-flag", "instance loaded from the TSPLIB "
+                          "text: flag or matrix differs", case)
+        return
     one_instance(ctx, case["matrix"], "replay", case["mult"],
                  np.dtype(case["in_dtype"]), len(case["matrix"]) <= 6,
                  case.get("layout"))
